@@ -315,6 +315,24 @@ def r5_noop(ctx, F):
             cut += sw.edges_not('Ordered')
     r = b.reach([e[1] for e in te], cut_edges=cut)
     ok = bool(cut) and bool(nones_after) and not any(i in r for i in nones_after)
+    if not ok:
+        # the network kind may have been tested once, up front, into a flag (`let is_ordered = matches!(..)`):
+        # then the elision must sit behind that flag's not-Ordered value
+        from common import variant_flags
+        for l, m in variant_flags(b, 'init_network').items():
+            ordered_val = True if 'Ordered' in m[True] else False if 'Ordered' in m[False] else None
+            if ordered_val is None:
+                continue
+            not_ordered = [e for sw in b.switches if sw.kind == 'bool' and sw.on.kind == 'local' and sw.on.key == l
+                           for e in sw.edges_for(not ordered_val)]
+            # (when the test follows the assignment directly, jump threading has already routed each
+            # store block to the test's outcome: then the store block of the not-Ordered value is the edge)
+            for (bb_, si_, val_) in b.const_stores(l):
+                if bool(val_) == (not ordered_val) and len(b.succ[bb_]) == 1:
+                    not_ordered.append((bb_, b.succ[bb_][0]))
+            elided = [i for (i, st) in ns.none_returns('Deliver') if i in b.reach([noop[0].bb])]
+            if not_ordered and b.edges_dominate(not_ordered, noop[0].bb) and elided:
+                ok = True
     ctx.check(ok, rule, 'noop-elision-not-on-ordered', b,
               good='a no-op delivery is elided only when the initial network is not Ordered',
               bad='next_state: a no-op delivery is elided (returns None) without testing that the network '
